@@ -3,7 +3,7 @@ import os
 import re
 import subprocess
 import tempfile
-from .frontend import walk, children, strip, strip_parens, qtype, dtype, CONFIGS, Ext
+from .frontend import walk, children, strip, strip_parens, qtype, dtype, CONFIGS, Ext, AnalysisBroken
 from .expr import canon, access_path, int_value, var_init, array_len, is_null
 from .dataflow import ReachingDefs, origins, canon_subst
 from .copy import _dominating_true
@@ -289,6 +289,8 @@ def rule_c07(prog, rep):
                     a = children(x)[1]
                     if 'param:%s' % mname in origins(rd, n.id, a):
                         writes.append(x)
+            if writes:
+                _i9_check(prog, rep, ctor, n, writes, sname)
             for w in writes:
                 rep.instance('I3')
                 ok = any(_dominating_true(ctor.cfg, g, n) and g.id in ctor.cfg.dominators()[n.id] for g in guards)
@@ -616,3 +618,71 @@ def _path_avoiding(cfg, start, pred, skip_edge=None):
                 continue
             work.append((s, env2))
     return False
+
+
+def _i9_check(prog, rep, ctor, n, writes, sname, rid='I9'):
+    """the region is written only when it is known to hold at least the image header (the slot count is obtained from the
+    unsigned difference memsize - sizeof(header), which wraps for smaller regions)"""
+    from .index import Facts
+    facts9 = Facts(ctor).at(n)
+    hdr = clang_sizeof(prog, ['sizeof(qhasharr_data_t)']).get('sizeof(qhasharr_data_t)')
+    lb = None
+    for (a, op, b, dom) in facts9:
+        if a != sname:
+            continue
+        K = None
+        if re.match(r'^\d+$', b):
+            K = int(b)
+        elif b.startswith('sizeof('):
+            K = clang_sizeof(prog, [b]).get(b)
+        if K is None:
+            continue
+        v = K + 1 if op == '>' else (K if op in ('>=', '==') else None)
+        if v is not None and (lb is None or v > lb):
+            lb = v
+    rep.rule(rid, 'the constructor writes the image header only when memsize >= sizeof(header) is known (the slot count comes '
+                  'from the unsigned difference memsize - sizeof(header), which wraps for smaller regions)')
+    rep.instance(rid)
+    ok9 = hdr is not None and lb is not None and lb >= hdr
+    rep.oblige(rid, ok9, {'line': writes[0].get('_line'), 'memsize_lower_bound': lb, 'sizeof_header': hdr})
+    if not ok9:
+        rep.violation(rid, ctor, writes[0].get('_line'), 'hdr-bound:%s' % canon(writes[0])[:30],
+                      'the region is written (%s) with only %s >= %s known, the header alone needs %s bytes: for a smaller '
+                      'region the slot count memsize - sizeof(header) wraps around and the write leaves the region'
+                      % (canon(writes[0])[:50], sname, lb if lb is not None else 1, hdr))
+
+
+def _region_writes(prog, ctor, rd, n, mname):
+    writes = []
+    for x in walk(n.ast):
+        if x.get('kind') == 'BinaryOperator' and x.get('opcode') == '=':
+            l = strip(children(x)[0])
+            if l.get('kind') in ('MemberExpr', 'ArraySubscriptExpr', 'UnaryOperator') and l.get('kind') != 'DeclRefExpr':
+                base = children(l)[0] if l.get('kind') != 'MemberExpr' or l.get('isArrow') else None
+                if base is not None and 'param:%s' % mname in origins(rd, n.id, base):
+                    writes.append(x)
+        elif x.get('kind') == 'CallExpr' and prog.callee_name(x) in ('memset', 'memcpy', 'memmove', 'strcpy'):
+            a = children(x)[1]
+            if 'param:%s' % mname in origins(rd, n.id, a):
+                writes.append(x)
+    return writes
+
+
+def rule_i9(prog, rep, rid='I9'):
+    """stand-alone form of I9 (used by C11: the static hash table never touches a byte outside the supplied region)"""
+    ctor = prog.need_func('qhasharr')
+    memparam = [p for p in ctor.params if qtype(p).rstrip().endswith('*')]
+    sizeparam = [p for p in ctor.params if 'size_t' in qtype(p)]
+    if not memparam or not sizeparam:
+        raise AnalysisBroken('qhasharr(memory, memsize) signature not recognised')
+    rd = ReachingDefs(ctor)
+    found = 0
+    for n in ctor.cfg.nodes:
+        if n.id not in ctor.cfg.reachable or not isinstance(n.ast, dict) or n.kind == 'macro':
+            continue
+        w = _region_writes(prog, ctor, rd, n, memparam[0].get('name'))
+        if w:
+            found += 1
+            _i9_check(prog, rep, ctor, n, w, sizeparam[0].get('name'), rid)
+    if not found:
+        raise AnalysisBroken('qhasharr: no write into the region found in the constructor')
